@@ -12,20 +12,31 @@ ASSUMPTIONS = [
     "contract burst = burst_bytes of the bucket the manager wrote (the manager derives the ingress burst itself); contract rate = the rate handed to the API (PolicyEnforced)",
     "a trace is backlogged when every offered packet is at least as large as the tokens accrued since the previous offer and at most MaxPkt",
     "Apalache evaluates the inequalities over unbounded integers; cumulative admitted bytes are prefix sums computed by the driver",
-    "traces are 40-60 arrivals: errors that need thousands of arrivals to exceed the contract's slack (sub-nanosecond rounding) are out of reach",
+    "traces of up to 60 arrivals are judged whole; of a longer trace (drift/starve patterns, up to tens of thousands of arrivals) Apalache is shown the ~50 events whose windows from the first arrivals look tightest (prefix sums over the whole trace), so a violation confined to a window between two events not shown is missed",
 ]
 
 
 def gen_module(tr, name):
-    cum, rows = 0, []
+    """One Apalache module per trace. Short traces are given whole. A long trace is given as a sub-sequence of its
+    events (cum stays the prefix sum over the WHOLE trace, so every window between two retained events is a window of
+    the real execution): the first events plus those whose windows from the first event look tightest. The selection
+    only decides which windows Apalache is shown; the verdict is Apalache's."""
+    cum, evs = 0, []
     for e in tr["events"]:
         if e["adm"]:
             cum += e["size"]
-        rows.append("[e |-> %d, size |-> %d, adm |-> %s, cum |-> %d]" % (e["e"], e["size"], "TRUE" if e["adm"] else "FALSE", cum))
+        evs.append(dict(e=e["e"], size=e["size"], adm=e["adm"], cum=cum))
+    n = len(evs)
+    if n > 60:
+        scale, rate, burst, maxpkt, f = 8000000000, tr["rate_bps"], tr["burst"], tr["maxpkt"], evs[0]
+        up = sorted((rate * (x["e"] - f["e"]) - scale * (x["cum"] - f["cum"] + f["size"] - burst), k) for k, x in enumerate(evs) if x["adm"])
+        lo = sorted((scale * (x["cum"] - f["cum"] + burst + maxpkt) - rate * (x["e"] - f["e"]), k) for k, x in enumerate(evs))
+        rej = [k for k, x in enumerate(evs) if not x["adm"]][:3] if rate == 0 else []   # Unlimited: show rejected packets
+        keep = sorted({0, 1, 2, n // 4, n // 2, n - 1} | {k for _, k in up[:36]} | {k for _, k in lo[:12]} | set(rej))
+        evs = [evs[k] for k in keep]
+    rows = ["[e |-> %d, size |-> %d, adm |-> %s, cum |-> %d]" % (x["e"], x["size"], "TRUE" if x["adm"] else "FALSE", x["cum"]) for x in evs]
     t = open(os.path.join(SPEC_DIR, "TraceTemplate.tla")).read()
-    n = len(rows)
-    anchors = "DOMAIN Trace" if n <= 60 else "{%s}" % ", ".join(str(x) for x in sorted({1, 2, max(1, n // 4), max(1, n // 2)}))
-    t = t.replace("@ANCHORS@", anchors)
+    t = t.replace("@ANCHORS@", "DOMAIN Trace" if n <= 60 else "{1, 2, 3, 4}")
     return (t.replace("@MODULE@", name).replace("@TRACE@", "<< " + ",\n  ".join(rows) + " >>").replace("@RATE@", str(tr["rate_bps"]))
             .replace("@BURST@", str(tr["burst"])).replace("@MAXPKT@", str(tr["maxpkt"])).replace("@BACKLOGGED@", "TRUE" if tr["backlogged"] else "FALSE"))
 
@@ -90,11 +101,17 @@ def _run(prop, tier, seed, replay, work, t0):
     binp = vcheck.build_harness("./qos", work)
     design = []
     if not replay:
-        for cfg in ("MC_upper.cfg", "MC_lower.cfg"):
+        cfgs = [("MC_upper.cfg", True), ("MC_lower.cfg", True), ("MC_upper_unbounded.cfg", True), ("MC_lower_unbounded.cfg", True),
+                ("MC_lower_unbounded_slow.cfg", True), ("MC_lower_tight.cfg", False)]
+        if tier == "thorough":
+            cfgs.append(("MC_agree.cfg", True))
+        for cfg, holds in cfgs:
             res = vcheck.run_tlc(SPEC_DIR, "TokenBucket", open(os.path.join(SPEC_DIR, cfg)).read(), work, workers=8, timeout=900, name=cfg[:-4])
-            if "No error has been found" not in res["out"]:
+            if holds and "No error has been found" not in res["out"]:
                 raise Infra("reference bucket does not satisfy the contract in %s:\n%s" % (cfg, res["out"][-2000:]))
-            design.append(dict(cfg=cfg, states=res["distinct"], transitions=res["generated"]))
+            if not holds and "Invariant LowerP is violated" not in res["out"]:
+                raise Infra("%s: the counterexample that justifies the Burst >= 2*MaxPkt guard was not found:\n%s" % (cfg, res["out"][-2000:]))
+            design.append(dict(cfg=cfg, states=res["distinct"], transitions=res["generated"], expected="holds" if holds else "counterexample (justifies the guard of Lower)"))
             log("design %s: %d states" % (cfg, res["distinct"]))
     j, res = run_traces(binp, work, tier, seed, "explore", os.path.abspath(replay) if replay else None)
     specs = {s["id"]: s for s in j["specs"]}
